@@ -201,7 +201,13 @@ def model_batch(ctx, inputs, workers=1):
         parts = [lines[i:i + step] for i in range(0, len(lines), step)]
         with ThreadPoolExecutor(workers) as ex:
             out = [x for part in ex.map(ctx.lean, parts) for x in part]
+    for b_, o_ in zip(inputs, out):
+        if o_.startswith("reject ") and len(_REASON) < 2_000_000:
+            _REASON[bytes(b_)] = o_[7:]
     return [o if not o.startswith("reject") else "reject" for o in out], out
+
+
+_REASON = {}   # byte string -> why the oracle has no typed reading of it (tooShort / tooLong / format / subFunction / ...)
 
 
 # ---------------------------------------------------------------------------------------------------------
@@ -258,6 +264,12 @@ def classify(b: bytes, impl: str, model: str):
         # typed, bytes kept and the exposed values are the ones at the ISO positions, but the oracle's reading of the
         # length / format rules has no typed view of this string: the statement's checkable part (pdu == input, fields
         # at their positions) holds on this input, the tie is off
+        why = _REASON.get(bytes(b))
+        if mv == "reject" and why in ("tooShort", "tooLong"):
+            # ... unless the string breaks the service's length rule of ISO 14229-1 (the registry table, regenerated and proved equal):
+            # "byte strings that break the service's length or format rules are rejected or kept as raw responses"
+            return (f"{ifam}:typed-although-{why}", True, f"typed {icls} although the byte string breaks the length rule of its service ({why}); "
+                                                          "such strings are to be rejected or kept raw")
         return (f"{ifam}:typed-where-oracle-{mv}", False, f"typed {icls} (bytes kept) where the oracle says {mv}")
     if mv == "ok":
         return (f"{mfam}:{iv}-where-oracle-typed", False, f"{iv} where the oracle has a lossless typed reading {mcls}")
